@@ -118,7 +118,7 @@ func main() {
 			fmt.Fprintln(os.Stderr, "worker: unknown profile in replay file")
 			os.Exit(2)
 		}
-		opt := &sim.Options{Budget: *budget, Sites: decimal128.VerifSiteCount, Property: prof.Property, Checks: prof.Checks, Trace: true}
+		opt := &sim.Options{Budget: *budget, Sites: decimal128.VerifSiteCount, Property: prof.Property, Checks: prof.Checks, Reverse: prof.Reverse, Trace: true}
 		o := sim.Execute(rf.Program, opt)
 		enc.Encode(runLine{Run: rf.Program.Run, Hash: fmt.Sprintf("%016x", o.Hash), Violations: o.Violations})
 		w.Flush()
@@ -161,7 +161,7 @@ func main() {
 			enc.Encode(p)
 			continue
 		}
-		opt := &sim.Options{Budget: *budget, Sites: decimal128.VerifSiteCount, Property: prof.Property, Checks: prof.Checks}
+		opt := &sim.Options{Budget: *budget, Sites: decimal128.VerifSiteCount, Property: prof.Property, Checks: prof.Checks, Reverse: prof.Reverse}
 		opt.Plan = func(ei int, steps [][]uint64) { sim.PlanSchedule(g, p, ei, steps); saveProgress() }
 		if len(sum.Samples) < 2 && i%7 == 3 {
 			opt.Trace = true
@@ -296,7 +296,7 @@ func doMinimise(path string, race bool, maxTries int, budget uint64) int {
 			lastRace = rr
 			return true
 		}
-		opt := &sim.Options{Budget: budget, Sites: decimal128.VerifSiteCount, Property: prof.Property, Checks: prof.Checks}
+		opt := &sim.Options{Budget: budget, Sites: decimal128.VerifSiteCount, Property: prof.Property, Checks: prof.Checks, Reverse: prof.Reverse}
 		o := sim.Execute(c, opt)
 		if o.Deadlock {
 			return false
@@ -331,7 +331,7 @@ func doMinimise(path string, race bool, maxTries int, budget uint64) int {
 		rf.RaceText = lastRace.Text
 	}
 	if !race {
-		opt := &sim.Options{Budget: budget, Sites: decimal128.VerifSiteCount, Property: prof.Property, Checks: prof.Checks, Trace: true}
+		opt := &sim.Options{Budget: budget, Sites: decimal128.VerifSiteCount, Property: prof.Property, Checks: prof.Checks, Reverse: prof.Reverse, Trace: true}
 		o := sim.Execute(min, opt)
 		rf.Trace = o.Trace
 	}
